@@ -88,12 +88,17 @@ func CheckHashPassword(clientResp, scramble, encryptPassword []byte) bool {
 	crypt.Write(hashBytes)
 	hash := crypt.Sum(nil)
 
+	// the response is checked against several candidate passwords: never modify it
+	if len(clientResp) != len(hash) {
+		return false
+	}
+	stage1 := make([]byte, len(clientResp))
 	for i := range clientResp {
-		clientResp[i] ^= hash[i]
+		stage1[i] = clientResp[i] ^ hash[i]
 	}
 
 	crypt.Reset()
-	crypt.Write(clientResp)
+	crypt.Write(stage1)
 	hash = crypt.Sum(nil)
 
 	return bytes.Equal(hashBytes, hash)
